@@ -5,7 +5,7 @@ import struct, sys, math, copy
 
 ID = 'C05'
 COQ_PROPS = ['Props/C05.v']
-COQ_IMPORTS = ['Prims', 'CaseLib', 'BitsCore', 'Golomb', 'IntCodec', 'Mutators', 'Search', 'Stream', 'Pack']
+COQ_IMPORTS = ['Prims', 'CaseLib', 'BitsCore', 'Golomb', 'IntCodec', 'Mutators', 'Search', 'Stream', 'Pack', 'Tokenizer']
 RULE = ('formats drawn from the grammar fmt ::= token | fmt, fmt | n*(fmt) | n*token | (fmt) with every dtype, the length spellings name:n / namen / alias / bare number / keyword, struct codes with the four prefixes and counts, '
         'nested brackets, whitespace, pads and at most one length-less token, with conforming values given positionally (as objects or as text), embedded as =text or through =keyword: pack length and bits vs '
         'independently computed per-token encodings, unpack / readlist / peeklist on the four classes, token strings (flat and bracketed) on the four classes, '
@@ -453,6 +453,62 @@ def gen_cases(rng, tier):
         chars = '()*,:=0123456789 uintbhexabc<>'
         yield {'op': 'malformed', 'fmt': ''.join(rng.choice(chars) for _ in range(rng.randrange(1, 14)))}
 
+_gen_cases_base = gen_cases
+def gen_cases(rng, tier):
+    """every case of the base generator, and for every format text with a bracket (well-formed or malformed) the bracket expansion on its own:
+    utils.expand_brackets(text without whitespace) is compared with the Coq model Tokenizer.expand_brackets and with an independent recursive-descent expansion"""
+    seen, budget = set(), (400 if tier == 'quick' else 6000)
+    for c in _gen_cases_base(rng, tier):
+        yield c
+        texts = [c['fmt']] if isinstance(c.get('fmt'), str) else [f for f in c.get('fmts', []) if isinstance(f, str)]
+        for t in texts:
+            t = ''.join(t.split())
+            if ('(' in t or ')' in t) and t not in seen and len(t) <= 160 and budget > 0 and t.isascii() and '"' not in t:
+                seen.add(t); budget -= 1
+                yield {'op': 'expand', 'fmt': t}
+    # shapes the grammar generator does not produce: digit runs that merge into new factors, stray brackets, factors with leading zeros, empty bodies
+    for t in ['1(2*(a))', 'a)(b)', '(a))', '007*(a)', '0*(a),b', 'a,0*(b)', '2*(),a', '()', '2*(a,3*(b,(c)),d),e', '12*(a)', '(a,b),3*(a,b)', '2*(a,b),12*(a,b)', '3*(x,2*(f)),12*(f)',
+              '2*(u8)3*(u4)', '*(a)', 'x*(a)', '2*((a)', '((a),(b))', '10*(a,b)', '9*(9*(a))']:
+        yield {'op': 'expand', 'fmt': t}
+    for _ in range(40 if tier == 'quick' else 800):
+        yield {'op': 'expand', 'fmt': ''.join(rng.choice('()*,0123a:') for _ in range(rng.randrange(1, 13)))}
+
+def ref_expand(s):
+    """independent expansion by recursive descent, for well-formed inputs only (None otherwise): seq := item (',' item)* ; item := [digits '*'] '(' seq ')' | text without brackets or commas.
+    A bracket with factor n stands for its expanded body written n times joined by commas (once without a factor; nothing at all for n = 0)."""
+    pos = 0
+    def seq():
+        nonlocal pos
+        parts = [item()]
+        while pos < len(s) and s[pos] == ',':
+            pos += 1; parts.append(item())
+        return ','.join(parts)
+    def item():
+        nonlocal pos
+        st = pos
+        while pos < len(s) and s[pos].isdigit() and s[pos].isascii(): pos += 1
+        if pos > st and s[pos:pos + 2] == '*(':
+            n = int(s[st:pos]); pos += 2; body = seq()
+            if pos >= len(s) or s[pos] != ')': raise SyntaxError
+            pos += 1
+            if pos < len(s) and s[pos] not in ',)': raise SyntaxError          # text glued to a bracket: not a well-formed format
+            return ','.join([body] * n)
+        pos = st
+        if s[pos:pos + 1] == '(':
+            pos += 1; body = seq()
+            if pos >= len(s) or s[pos] != ')': raise SyntaxError
+            pos += 1
+            if pos < len(s) and s[pos] not in ',)': raise SyntaxError
+            return body
+        while pos < len(s) and s[pos] not in '(),': pos += 1
+        if pos < len(s) and s[pos] == '(': raise SyntaxError                   # text glued in front of a bracket ("a(b)", "x*(a)")
+        return s[st:pos]
+    try:
+        r = seq()
+        return r if pos == len(s) else None
+    except (SyntaxError, IndexError, RecursionError):
+        return None
+
 def kind(c): return 'pack_repeat' if c.get('repeat') else c['op']
 
 def canon(v):
@@ -468,6 +524,8 @@ def pyval(v):
 def run_impl(c):
     import bitstring
     from bitstring import pack, Bits
+    if c['op'] == 'expand':
+        return attempt(lambda: bitstring.utils.expand_brackets(c['fmt']), 20)
     if c['op'] == 'malformed':
         def f():
             r = {}
@@ -548,6 +606,16 @@ def run_impl(c):
     return ('ok', out)
 
 def oracle(c, obs):
+    if c['op'] == 'expand':
+        exp = ref_expand(c['fmt'])
+        if exp is None:
+            # not a well-formed format: the expansion either raises ValueError or returns some text (the Coq model says which); nothing else may happen
+            return None if obs[0] == 'ok' or obs[1] == 'ValueError' else f"expand_brackets({c['fmt']!r}) raised {obs[1]}"
+        if '0*(' in c['fmt'] or '00*(' in c['fmt']: exp_ok = None     # what is left around an empty expansion (neighbouring commas) is decided by the model
+        else: exp_ok = exp
+        if obs[0] != 'ok': return f"expand_brackets({c['fmt']!r}) raised {obs[1]}; the format is well formed and expands to {exp!r}"
+        if exp_ok is not None and obs[1] != exp_ok: return f"expand_brackets({c['fmt']!r}) = {obs[1]!r}; writing each bracket's body factor times gives {exp_ok!r}"
+        return None
     if c['op'] == 'malformed':
         if obs[0] != 'ok': return f"malformed format {c['fmt']!r}: {obs}"
         for name, r in obs[1].items():
@@ -607,7 +675,12 @@ def cval(nm, v):
     return None
 
 def coq_check(c, obs):
-    """token-level pack/unpack for formats whose tokens the model covers"""
+    """token-level pack/unpack for formats whose tokens the model covers; bracket expansion on the character-level model"""
+    if c['op'] == 'expand':
+        if obs[0] == 'ok':
+            if not obs[1].isascii() or '"' in obs[1] or len(obs[1]) > 4000: return None
+            return f'res_eqb String.eqb (run (100 * 100)%nat "{c["fmt"]}") (Ok "{obs[1]}"%string)'
+        return f'res_eqb String.eqb (run (100 * 100)%nat "{c["fmt"]}") (Err {obs[1]})' if obs[1] in COQ_EXNS else 'false'
     if c['op'] != 'pack' or obs[0] != 'ok' : return None
     if c.get('repeat') and len(c['toks']) > 24: return None        # the model works on the flattened token list, which says nothing about how the text was expanded: the long ones are left to the oracle
     toks, vals = [], []
